@@ -1781,6 +1781,20 @@ pub mod internal {
     pub use crate::vm::{run_default, run_trace, Insn, Prog};
 }
 
+/// Verification hooks, compiled only with `--cfg fancy_regex_verif`.
+#[cfg(fancy_regex_verif)]
+#[allow(missing_docs)]
+pub mod verif_hooks {
+    pub use crate::analyze::verif_facts;
+    pub use crate::vm::verif_hooks::*;
+
+    /// Whether a compiled `Regex` is interpreted by the backtracking VM (`true`) or handed to
+    /// the automata engine as a whole (`false`).
+    pub fn is_fancy(re: &crate::Regex) -> bool {
+        matches!(re.inner, crate::RegexImpl::Fancy { .. })
+    }
+}
+
 #[cfg(test)]
 mod tests {
     use alloc::borrow::Cow;
